@@ -167,9 +167,44 @@ pub fn run(cfg: &Cfg) {
             out.violation("real-creation", &format!("ids {:?} stored {:?}", ids, stored));
         }
         out.hit("real_creation");
+        // the stored id is REPLACED (another process stored a new one; the file never looked absent to this process): the
+        // answer is the stored id, not one remembered from before
+        let other = format!("{:032X}", 0x0123456789ABCDEF0123456789ABCDEFu128.rotate_left((ids[0].len() as u32 + ids[0].as_bytes()[0] as u32) % 64));
+        std::fs::write("/tmp/dbus_machine_uuid.vh_tmp", &other).unwrap();
+        std::fs::rename("/tmp/dbus_machine_uuid.vh_tmp", "/tmp/dbus_machine_uuid").unwrap();
+        let mut msg: MarshalledMessage = MessageBuilder::new().call("GetMachineId").at(":1.1").on("/").build();
+        msg.dynheader.interface = Some("org.freedesktop.DBus.Peer".into());
+        msg.dynheader.sender = Some(":1.5".into());
+        msg.dynheader.serial = NonZeroU32::new(8);
+        let _ = rustbus::peer::handle_peer_message(&msg, &mut conn).unwrap();
+        let written = peer::drain(&mut server);
+        let id: String = peer::decode_frame(&written).unwrap().body.parser().get().unwrap();
+        if id != other {
+            out.violation("stored-id-replaced", &format!("the stored id is {:?}, GetMachineId answered {:?} (the id stored before was {:?})", other, id, ids[0]));
+        }
+        out.hit("stored_id_replaced");
+    }
+    // 5. a caller that has shut down its sending side (it sent its last call and only reads from now on) still gets its answer
+    for member in ["Ping", "GetMachineId"] {
+        let (mut c2, mut s2) = peer::connect_pair(false);
+        s2.shutdown(std::net::Shutdown::Write).unwrap();
+        let mut msg: MarshalledMessage = MessageBuilder::new().call(member).at(":1.1").on("/").build();
+        msg.dynheader.interface = Some("org.freedesktop.DBus.Peer".into());
+        msg.dynheader.sender = Some(":1.9".into());
+        msg.dynheader.serial = NonZeroU32::new(41);
+        let res = rustbus::peer::handle_peer_message(&msg, &mut c2);
+        let written = peer::drain(&mut s2);
+        let frames = peer::split_frames(&written).unwrap_or_default();
+        let ok = matches!(res, Ok(true))
+            && frames.len() == 1
+            && peer::decode_frame(&frames[0]).map(|r| r.dynheader.response_serial == NonZeroU32::new(41) && matches!(r.typ, rustbus::MessageType::Reply)).unwrap_or(false);
+        if !ok {
+            out.violation(&format!("half-closed-caller {}", member), &format!("a caller that shut down its sending side called {}: result {:?}, {} frame(s) arrived instead of exactly one method return", member, res.as_ref().map_err(|e| format!("{:?}", e)), frames.len()));
+        }
+        out.hit("half_closed_caller");
     }
     out.finish(
-        "formatter: boundary (each power of 16 +-1 per word) x random triples, non-trivial = some word has a leading zero digit (distinct by request); peer logic: 6 interfaces x 8 members incl. absent/near-miss, non-trivial = distinct (iface,member)",
+        "stored id replaced between calls (atomic rename; the answer follows the stored id); a half-closed caller still gets exactly one method return; formatter: boundary (each power of 16 +-1 per word) x random triples, non-trivial = some word has a leading zero digit (distinct by request); peer logic: 6 interfaces x 8 members incl. absent/near-miss, non-trivial = distinct (iface,member)",
         false,
     );
 }
